@@ -301,6 +301,63 @@ def compare_variant(spec: dict[str, Any], base: dict[str, Any], var: dict[str, A
     return out
 
 
+def attribute(spec: dict[str, Any], asg: Any, var: dict[str, Any], probs: list[Any],
+              ref: Any, spread: Any, vset: int, col: common.Collector) -> list[Any]:
+    """Drop problems that are not specific to the tags:
+    (a) value deviations of the BINARY only, where the tagged kernel contains a construct
+        loopy's C printer mistranslates and the kernel-level interpreter (pytato's kernel
+        before loopy) agrees with NumPy;
+    (b) code generation failures that the UNTAGGED program shows as well once the stored /
+        substituted nodes are made outputs (storing a node == making it an output): C01's."""
+    if not probs:
+        return probs
+    from vf.checks import c01
+    from vf.oracle import compare
+    out = []
+    tb: set[str] | None = None
+    for coarse, what, extra in probs:
+        if coarse.startswith(("C07:value-vs-baseline", "C07:value-vs-numpy")) and var.get("bp") \
+                and var.get("interp_outputs") is not None:
+            if tb is None:
+                try:
+                    tb = c01.trusted_base_signatures(var["bp"].program)
+                except Exception:  # noqa: BLE001
+                    tb = set()
+            ok_int = True
+            for name, iv in var["interp_outputs"].items():
+                if name in ref:
+                    with np.errstate(all="ignore"):
+                        w = ref[name].astype(iv.dtype)
+                    if iv.shape != w.shape or not compare.close_ulps(iv, w, 16.0,
+                                                                      err=8.0 * spread[name]):
+                        ok_int = False
+            if tb and ok_int:
+                col.histo("trusted_base_disagreements", "value:" + "+".join(sorted(tb)))
+                continue
+        if coarse.startswith("C07:codegen:") and asg:
+            try:
+                ids = [int(k) for k, tags in asg.items()
+                       if any(t[0] in ("stored", "subst") for t in tags)]
+                spec2 = dict(spec)
+                spec2["outputs"] = dict(spec["outputs"])
+                for nid in ids:
+                    spec2["outputs"][f"vf_st{nid}"] = nid
+                v2 = run_variant(spec2, None, False, vset)
+                if v2["status"] == "fail":
+                    e2 = v2.get("exc")
+                    s2 = common.exc_site(e2) if e2 is not None else "gcc"
+                    k2 = (f"C07:codegen:{v2['stage']}:{type(e2).__name__ if e2 else 'gcc'}"
+                          f"@{s2}")
+                    if coarse == k2:
+                        col.histo("failure_shared_with_untagged_output_program",
+                                  coarse.split(":", 2)[2][:80])
+                        continue
+            except Exception:  # noqa: BLE001
+                pass
+        out.append((coarse, what, extra))
+    return out
+
+
 def tagsig(spec: dict[str, Any], asg: dict[str, list[list[Any]]] | None, strip: bool) -> str:
     if strip:
         return "stripped"
@@ -433,6 +490,7 @@ def check_case(case: dict[str, Any], col: common.Collector) -> None:
                                     for k, v in var["structure"].items()},
                       "baseline_structure": {k: (v if isinstance(v, int) else len(v))
                                              for k, v in base["structure"].items()}})
+        probs = attribute(spec, asg, var, probs, ref, spread, vset, col)
         for coarse, what, extra in probs:
             a2 = asg
             if asg and not strip:
